@@ -1,7 +1,7 @@
 (* Model/Reloc.v's field functions are the functions of Model/Insns.v (C01/C04) and of the regenerated
    Gen/GenGetAsInt.v (C06): C09's programme model rests on the same definitions. *)
 From Coq Require Import String List ZArith Lia Bool.
-From Verif Require Import Base.Res Base.Bytes Model.Poly Model.Reloc Model.Insns Gen.GenGetAsInt.
+From Verif Require Import Base.Res Base.Bytes Model.Poly Model.Reloc Model.Insns Gen.GenGetAsInt Gen.GenMeta.
 Import ListNotations.
 Open Scope Z_scope.
 
@@ -63,3 +63,49 @@ Qed.
 
 Theorem abs_field_is_int16 b e : abs_field b e = do v <- Insns.int16 (aval b e); Ok (le16 v).
 Proof. unfold abs_field. rewrite reloc_get_as_int16_is_int16. reflexivity. Qed.
+
+(* ---- the padding directives are the bodies translated from metacommands.py on every run (Gen/GenMeta):
+        .align for EVERY count (the padding is (-address) mod count, not a bit mask), .even, .odd ---- *)
+Lemma concat_repeat_zero n : concat (repeat [0] n) = zeros n.
+Proof. induction n as [|n IH]; simpl; [reflexivity|]. rewrite IH. reflexivity. Qed.
+
+Theorem align_is_generated b pos m : 0 <= m -> item_bytes b pos (Align m) = body_align (b + pos) m.
+Proof.
+  intros Hm. unfold body_align, rz_eqb, rb_mul, rz_mod, rz_neg, py_mod, bytes_mul. cbn [item_bytes bind].
+  destruct (m =? 0) eqn:E0.
+  - apply Z.eqb_eq in E0. subst. reflexivity.
+  - apply Z.eqb_neq in E0. destruct (m <=? 0) eqn:E1; [apply Z.leb_le in E1; lia|].
+    cbn [bind]. rewrite concat_repeat_zero. reflexivity.
+Qed.
+
+Theorem even_is_generated b pos : item_bytes b pos (Align 2) = body_even (b + pos).
+Proof.
+  unfold body_even, rb_if, rz_eqb, rz_mod, py_mod. cbn [item_bytes bind Z.leb Z.compare Z.eqb].
+  pose proof (Z.mod_pos_bound (b + pos) 2 ltac:(lia)) as H.
+  assert (E : (- (b + pos)) mod 2 = (b + pos) mod 2).
+  { pose proof (Z.mod_pos_bound (- (b + pos)) 2 ltac:(lia)).
+    assert (((- (b + pos)) + (b + pos)) mod 2 = 0) by (replace (- (b + pos) + (b + pos)) with 0 by lia; reflexivity).
+    rewrite Z.add_mod in H1 by lia.
+    assert (C : (b + pos) mod 2 = 0 \/ (b + pos) mod 2 = 1) by lia.
+    assert (D : (- (b + pos)) mod 2 = 0 \/ (- (b + pos)) mod 2 = 1) by lia.
+    destruct C as [C|C], D as [D|D]; rewrite C, D in H1; simpl in H1; try discriminate; lia. }
+  rewrite E. destruct ((b + pos) mod 2 =? 1) eqn:E1.
+  - apply Z.eqb_eq in E1. rewrite E1. reflexivity.
+  - apply Z.eqb_neq in E1. replace ((b + pos) mod 2) with 0 by lia. reflexivity.
+Qed.
+
+Theorem odd_is_generated b pos : item_bytes b pos Odd = body_odd (b + pos).
+Proof.
+  unfold body_odd, rb_if, rz_eqb, rz_mod, py_mod. cbn [item_bytes bind Z.eqb].
+  destruct ((b + pos) mod 2 =? 0); reflexivity.
+Qed.
+
+(* the padding depends on the address only through (address mod count) -- for every count > 0 *)
+Theorem align_padding_congruent m a1 a2 : 0 < m -> (a2 - a1) mod m = 0 -> (- a2) mod m = (- a1) mod m.
+Proof.
+  intros Hm Hd. replace (- a2) with (- a1 + (- (a2 - a1))) by lia.
+  rewrite Z.add_mod by lia.
+  assert (H : (- (a2 - a1)) mod m = 0).
+  { apply Z.mod_divide in Hd; [|lia]. apply Z.mod_divide; [lia|]. apply Z.divide_opp_r. exact Hd. }
+  rewrite H, Z.add_0_r. apply Z.mod_mod. lia.
+Qed.
